@@ -2,9 +2,12 @@ package c06
 
 import (
 	"fmt"
+	"os"
+	"runtime/pprof"
 	"sort"
 	"strconv"
 	"strings"
+	"time"
 
 	"verifharness/lib"
 )
@@ -242,6 +245,8 @@ type runner struct {
 	sparse   bool
 	lastOp   string
 	diverged bool
+	altBal   map[int]int // oracleC07: balance of the log up to altUpTo
+	altUpTo  int
 }
 
 func (rn *runner) fail(prop, class, what string) {
@@ -391,7 +396,7 @@ func (rn *runner) oracleC06(line string, links []string) {
 		if got := ints(w.keys()); got != ints(want) {
 			rn.fail("C06", "contents", fmt.Sprintf("after %q the table holds ids [%s] (Keys call %d), the latest inserted and not removed are [%s]", line, got, round, ints(want)))
 		}
-		for id := 1; id <= 12; id++ {
+		for id := 1; id <= maxID; id++ {
 			got := w.table().Lookup(idOf(id))
 			if l, ok := w.cur[id]; ok {
 				if got != l.sb {
@@ -421,9 +426,14 @@ func (rn *runner) oracleC07(line string, isClose bool) {
 	if got := ints(w.active()); got != ints(want) {
 		rn.fail("C07", "active-vs-closure", fmt.Sprintf("after %q the symbols loaded and not unloaded are [%s], those whose reference closure is present are [%s]", line, got, ints(want)))
 	}
-	bal := map[int]int{}
+	// alternation / unload-before-close: the events since the last check (the log only grows)
+	if rn.altBal == nil {
+		rn.altBal = map[int]int{}
+	}
+	bal := rn.altBal
 	w.mu.Lock()
-	log := append([]ev{}, w.log...)
+	log := append([]ev{}, w.log[rn.altUpTo:]...)
+	rn.altUpTo = len(w.log)
 	w.mu.Unlock()
 	for _, e := range log {
 		switch e.k {
@@ -768,6 +778,9 @@ func runLines(c *lib.Ctx, which string, lines []string) *caseResult {
 // operation (one stride per case) and at the end, so that state which is refreshed by being looked
 // at (a memoised key list, …) is seen after several unobserved operations.
 func genCase(c *lib.Ctx, r *lib.RNG, which string) []string {
+	if r.Chance(1, 12) {
+		return genLarge(c, r, which)
+	}
 	ops := genCaseOps(c, r, which)
 	if !r.Chance(4, 10) {
 		return ops
@@ -923,6 +936,11 @@ func genCaseOps(c *lib.Ctx, r *lib.RNG, which string) []string {
 
 // RunProp is the body of C06.Run / C07.Run / C08.Run.
 func RunProp(c *lib.Ctx, which string) {
+	if pf := os.Getenv("VERIF_CPUPROFILE"); pf != "" {
+		f, _ := os.Create(pf)
+		pprof.StartCPUProfile(f)
+		defer pprof.StopCPUProfile()
+	}
 	// lib.NewRNG(seed+1) is lib.NewRNG(seed) advanced by one draw; Fork() scrambles the state so
 	// that different seeds (and the three properties) get unrelated streams.
 	r := lib.NewRNG(c.Seed).Fork()
@@ -986,7 +1004,15 @@ func RunProp(c *lib.Ctx, which string) {
 	var ms []lib.Mismatch
 	if c.Proof.DriverBuilt {
 		var err error
-		ms, err = c.RunModel("c06", sc) // one driver serves C06–C08
+		t0 := time.Now()
+		c.Extra["implementation_and_oracles_s"] = t0.Sub(c.Start).Seconds()
+		ms, err = c.RunModel("c06", sc)
+		c.Extra["model_driver_s"] = time.Since(t0).Seconds()
+		nb := 0
+		for _, l := range sc.Lines {
+			nb += len(l) + 1
+		}
+		c.Extra["script_bytes"] = nb // one driver serves C06–C08
 		if err != nil {
 			c.Violation("model driver failed: "+err.Error(), "", false)
 		}
@@ -997,6 +1023,7 @@ func RunProp(c *lib.Ctx, which string) {
 		"the model has one load / unload notification per activation: the harness's table holds 1–5 load and unload hooks (2–3 TableOptions in a share of the cases, plus Add/Remove on the live table) and collapses the calls of one notification into one event only when they are exactly the registered hooks in registration order (unload: last registered first); anything else is an oracle failure [hooks]",
 		"namespaces and names are strings containing \"/\" chosen so that two different (namespace, name) pairs have the same \"<namespace>/<name>\" text; the model keys the name index by the pair",
 		"in 4 of 10 cases the table is observed sparsely (Keys / Lookup / ports / reverse index read only every 2nd–4th operation and at the end, the model stepped through every operation and compared at those points); return values and hook / node events are compared after every operation in all cases",
+		"size family: about 1 case in 12 is a LARGE universe – 9–70 referrers of one target, a pipeline of 10–80 symbols with lifecycle ports on the far end leading to the near end, a tree (fan-out 3, depth 2–3), 7–40 roots with two private targets each, 34–100 independent symbols – built targets-first, referrers-first or shuffled, then replace / Free / re-Insert at the ends and in the middle, Close and re-use of the table, Close at the end; no failing flows or hooks there (events compared as sets, pass order by the C08 oracle on the real log); return values and events are compared after every operation, keys / wiring / reverse index / active set at `observe` lines (every 8 insertions while building, after every operation afterwards). Sizes beyond 64 in a third of the large cases at quick, half at thorough",
 		"names are unique per namespace among live symbols (generator enforces it; it is what the runtime's unique index gives the table); each port reference has exactly one of id / name; ids are non-nil",
 		"port names are canonical (no use of the alias out == out[0] of OneToManyNode); no spec names the error port",
 		"lifecycle targets answer every packet (harness nodes always answer; a target that never answers blocks exec in Go and is outside the model)",
@@ -1012,3 +1039,173 @@ func RunProp(c *lib.Ctx, which string) {
 }
 
 func Run(c *lib.Ctx) { RunProp(c, "C06") }
+
+// ------------------------------------------------------------------ the size family
+
+// genLarge: a LARGE universe (the sizes a deployment reaches): many referrers of one target, a long
+// pipeline, a tree, many roots with private targets, many independent symbols – built in one of
+// several orders, then Insert / replace / Free in the middle and at the ends, and Close. No failing
+// flows or hooks (the order inside one pass is not total: events are compared as sets, the order
+// by the C08 oracle on the real log). The table is read at `observe` lines: every few insertions
+// while the universe is built, after every operation afterwards.
+func genLarge(c *lib.Ctx, r *lib.RNG, which string) []string {
+	type node struct {
+		id   int
+		refs []int         // out -> in of these ids
+		life map[int][]int // lifecycle port -> responder ids
+	}
+	var nodes []*node
+	mk := func(id int, refs ...int) *node {
+		n := &node{id: id, refs: refs, life: map[int][]int{}}
+		nodes = append(nodes, n)
+		return n
+	}
+	line := func(n *node) string {
+		d := &SymDef{ID: n.id, Kind: kOneToOne}
+		if len(n.refs) > 0 {
+			pd := PortDef{Port: pOut}
+			for _, t := range n.refs {
+				pd.Refs = append(pd.Refs, RefDef{ID: t, Port: pIn})
+			}
+			d.Ports = append(d.Ports, pd)
+		}
+		for _, ph := range []int{pInit, pBegin, pTerm, pFinal} {
+			if ts, ok := n.life[ph]; ok {
+				pd := PortDef{Port: ph}
+				for _, t := range ts {
+					pd.Refs = append(pd.Refs, RefDef{ID: t, Port: pIn})
+				}
+				d.Ports = append(d.Ports, pd)
+			}
+		}
+		return d.line()
+	}
+	big := r.Chance(1, c.Scale(3, 2)) // sizes beyond 64 in a third (thorough: half) of the large cases
+	kind := r.Weighted([]int{3, 3, 1, 2, 2})
+	var special []int // ids worth replacing / freeing: ends and middle
+	switch kind {
+	case 0: // n referrers of one target
+		n := r.Range(9, 30)
+		if big {
+			n = r.Range(30, 70)
+		}
+		mk(1)
+		for k := 2; k <= n+1; k++ {
+			mk(k, 1)
+		}
+		special = []int{1, 2, 2 + n/2, n + 1}
+		c.Hit("large-fan-in")
+	case 1: // pipeline k -> k-1, lifecycle ports of the far end lead to the near end
+		n := r.Range(10, 40)
+		if big {
+			n = r.Range(40, 80)
+		}
+		mk(1)
+		for k := 2; k <= n; k++ {
+			mk(k, k-1)
+		}
+		far := nodes[n-1]
+		far.life[pInit] = []int{1}
+		far.life[pTerm] = []int{1}
+		special = []int{1, 2, n / 2, n - 1, n}
+		c.Hit("large-pipeline")
+	case 2: // tree, fan-out 3, children reference their parent
+		depth := r.Range(2, 3)
+		mk(1)
+		level := []int{1}
+		next := 2
+		for d := 0; d < depth; d++ {
+			var nl []int
+			for _, p := range level {
+				for j := 0; j < 3; j++ {
+					mk(next, p)
+					nl = append(nl, next)
+					next++
+				}
+			}
+			level = nl
+		}
+		special = []int{1, 2, 4, next - 1}
+		c.Hit("large-tree")
+	case 3: // roots with two private targets each
+		nr := r.Range(7, 20)
+		if big {
+			nr = r.Range(20, 40)
+		}
+		id := 1
+		for i := 0; i < nr; i++ {
+			mk(id, id+1, id+2)
+			mk(id + 1)
+			mk(id + 2)
+			special = append(special, id)
+			id += 3
+		}
+		special = []int{1, 2, 3 * (nr / 2), 3*nr - 2}
+		c.Hit("large-roots-with-private-targets")
+	default: // independent symbols
+		n := r.Range(34, 60)
+		if big {
+			n = r.Range(60, 100)
+		}
+		for k := 1; k <= n; k++ {
+			mk(k)
+		}
+		special = []int{1, n / 2, n}
+		c.Hit("large-independent")
+	}
+	byID := map[int]*node{}
+	for _, n := range nodes {
+		byID[n.id] = n
+	}
+	lines := []string{"mode set", "mode sparse"}
+	// build: targets first, referrers first, or shuffled
+	order := make([]*node, len(nodes))
+	copy(order, nodes)
+	switch r.Intn(3) {
+	case 1:
+		for i, j := 0, len(order)-1; i < j; i, j = i+1, j-1 {
+			order[i], order[j] = order[j], order[i]
+		}
+	case 2:
+		for i := len(order) - 1; i > 0; i-- {
+			j := r.Intn(i + 1)
+			order[i], order[j] = order[j], order[i]
+		}
+	}
+	for i, n := range order {
+		lines = append(lines, line(n))
+		if (i+1)%8 == 0 {
+			lines = append(lines, "observe")
+		}
+	}
+	lines = append(lines, "observe")
+	// operations at the ends and in the middle, each observed
+	op := func(l string) { lines = append(lines, l, "observe") }
+	nops := r.Range(3, 7)
+	for i := 0; i < nops; i++ {
+		id := lib.Pick(r, special)
+		if _, ok := byID[id]; !ok {
+			continue
+		}
+		switch r.Intn(4) {
+		case 0, 1: // replace by the same definition (unloads and reloads everything that reaches it)
+			op(line(byID[id]))
+		case 2:
+			op(fmt.Sprintf("free %d", id))
+			if r.Chance(2, 3) {
+				op(line(byID[id]))
+			}
+		default:
+			op("close")
+			// the same table again: part of the universe, in order
+			for j, n := range nodes {
+				if j%2 == 0 || r.Chance(1, 2) {
+					lines = append(lines, line(n))
+				}
+			}
+			lines = append(lines, "observe")
+		}
+	}
+	op("close")
+	return lines
+}
